@@ -312,9 +312,16 @@ func init() {
 		},
 		"sort.Search": sortSearch,
 	}
-	for _, n := range []string{"fmt.Fprintf", "fmt.Fprint", "fmt.Fprintln", "io.WriteString", "fmt.Printf", "fmt.Println"} {
-		intrinsics[n] = pureFresh
+	for _, n := range []string{"fmt.Fprint", "fmt.Fprintln", "fmt.Printf", "fmt.Println"} {
+		intrinsics[n] = outUnknown
 	}
+	intrinsics["io.WriteString"] = func(a *Act, st *State, c *ssa.Function, x []Val, p tokenPos) Val {
+		// ghost output counter: the number of runes written so far (to any writer)
+		a.outAdd(st, a.runeCount(x[1].T))
+		return a.freshResult(st, c.Signature)
+	}
+	intrinsics["fmt.Fprintf"] = fprintfIntrinsic(1)
+	intrinsics["(*github.com/fatih/color.Color).Fprintf"] = fprintfIntrinsic(2)
 }
 
 func (a *Act) unicodeFacts() {
@@ -368,3 +375,56 @@ func sortSearch(a *Act, st *State, c *ssa.Function, x []Val, p tokenPos) Val {
 }
 
 var _ = strings.TrimSpace
+
+const outHeap = "OUT_len"
+
+func (a *Act) runeCount(s Term) Term {
+	f := a.u.D.Fun("utf8_count", []string{"Str"}, "Int")
+	t := app(f, s)
+	a.u.Fact(and(app("<=", "0", t), app("<=", t, app("str_len", s))))
+	return t
+}
+
+func (a *Act) outAdd(st *State, n Term) {
+	st.setHeap(outHeap, "Int", app("+", st.heap(outHeap, "Int"), n))
+}
+
+func outUnknown(a *Act, st *State, c *ssa.Function, x []Val, p tokenPos) Val {
+	st.setHeap(outHeap, "Int", a.u.D.Fresh("out", "Int"))
+	return a.freshResult(st, c.Signature)
+}
+
+// fprintfIntrinsic models Fprintf(w, format, args...) for the ghost output counter. Only the
+// format "%*s" (width, string) is interpreted: it writes max(width, runes(string)) runes; any other
+// format leaves the counter unknown. fmtIdx is the index of the format argument.
+func fprintfIntrinsic(fmtIdx int) intrinsicFn {
+	return func(a *Act, st *State, c *ssa.Function, x []Val, p tokenPos) Val {
+		d := a.u.D
+		format := x[fmtIdx].T
+		lit := ""
+		for s, cst := range d.strlits {
+			if cst == format {
+				lit = s
+			}
+		}
+		if lit == "%*s" && len(x) > fmtIdx+1 {
+			args := x[fmtIdx+1].T // []any
+			anyT := types.Type(types.NewInterfaceType(nil, nil))
+			if sl, ok := types.Unalias(x[fmtIdx+1].Typ).Underlying().(*types.Slice); ok {
+				anyT = sl.Elem()
+			}
+			hAny, hsAny := d.CellHeap(anyT)
+			e0 := hsel(a.u, st.heap(hAny, hsAny), app("saddr", args, "0"))
+			e1 := hsel(a.u, st.heap(hAny, hsAny), app("saddr", args, "1"))
+			hi, hsi := d.CellHeap(tInt)
+			hs, hss := d.CellHeap(tString)
+			w := sel(st.heap(hi, hsi), app("iptr", e0))
+			s := sel(st.heap(hs, hss), app("iptr", e1))
+			n := a.runeCount(s)
+			a.outAdd(st, ite(app(">=", w, n), w, n))
+			a.u.Trusted["fmt: Fprintf(\"%*s\", w, s) writes max(w, runes(s)) runes (colour escape sequences not counted)"] = true
+			return a.freshResult(st, c.Signature)
+		}
+		return outUnknown(a, st, c, x, p)
+	}
+}
